@@ -194,6 +194,11 @@ pub fn gen_config(spec: &CaseSpec, ex: &ArtExclusions) -> (&'static str, GenConf
     // text does not parse, nor does raw_response_type.ts): excluded by construction in three
     // quarters of the cases so that the search continues behind it, kept in the rest so that every
     // run re-observes it
+    if tier == "everything" {
+        // integer literals beyond the 32-bit range: the compiler must reject them for Int
+        // positions (then the program is outside the domain) or print them for Float / ID positions
+        cfg.big_ints = true;
+    }
     if ex.exclude_negative_ints && (spec.variant as usize / 64) % 4 != 0 {
         cfg.negative_ints = false;
     }
@@ -311,6 +316,16 @@ pub fn judge(report: &Report, files: &BTreeMap<String, String>, model: Option<&P
         Ok(c) => c,
         Err(skip) => {
             report.case(None::<&str>, &[origin, skip.label()]);
+            if let Ok(h) = std::env::var("VERIF_DUMP_HASH") {
+                // development aid: write the files of one skipped program
+                if format!("{:016x}", vcore::hash_of(&format!("{files:?}"))) == h {
+                    let _ = std::fs::write("/dev/shm/art-dump.json", serde_json::to_string_pretty(&json!({"input": {"files": files}})).unwrap());
+                }
+            }
+            if std::env::var("VERIF_SKIP_LOG").is_ok() {
+                // development aid: one line per skipped program
+                println!("SKIPLOG {} {:016x} {}", skip.label(), vcore::hash_of(&format!("{files:?}")), skip.detail().lines().next().unwrap_or("").chars().take(160).collect::<String>());
+            }
             if std::env::var("VERIF_SKIP_DETAIL").is_ok() {
                 // development aid: why was the program not accepted?
                 let first: String = skip.detail().lines().next().unwrap_or("").chars().take(140).collect();
